@@ -27,8 +27,8 @@ ReadOnly == {"ComputeTotals", "JacVec", "CheckPartials", "CheckTotals", "Compute
              "ListInputs", "ListOutputs", "GetVal"}
 Mutating == {"SetVal", "RunModel"}
 
-VARIABLES tid, l, st, fresh, memo, verdict
-vars == <<tid, l, st, fresh, memo, verdict>>
+VARIABLES tid, l, st, fresh, memo, rmemo, verdict
+vars == <<tid, l, st, fresh, memo, rmemo, verdict>>
 
 \* st: instance -> digest id of the visible state;  memo: set of <<pre, call, arg, post>>
 Init == /\ tid \in 1..Len(Traces)
@@ -36,9 +36,13 @@ Init == /\ tid \in 1..Len(Traces)
         /\ st = [i \in 1..Traces[tid].ninst |-> Traces[tid].init]
         /\ fresh = [i \in 1..Traces[tid].ninst |-> FALSE]   \* TRUE iff the model has been run in the current state
         /\ memo = {}
+        /\ rmemo = {}          \* results of read-only calls: set of <<visible state, call, result id>>
         /\ verdict = "ok"
 
 Ev == Traces[tid].ev[l]
+\* calls that run the model first when it has not been run in its current state (documented behaviour).  With a declared
+\* dynamic total coloring the first compute_totals computes that coloring, so it belongs here as well.
+ImplicitRun == {"CheckPartials", "CheckTotals", "ComputeColoring"} \cup (IF Traces[tid].dyn THEN {"ComputeTotals"} ELSE {})
 
 \* one event of the trace: [inst, a (action), arg (id of the argument, 0 if none), pre, post]
 Step ==
@@ -46,23 +50,28 @@ Step ==
     /\ l <= Len(Traces[tid].ev)
     /\ LET e == Ev IN
        IF e.pre # st[e.inst]
-       THEN verdict' = "pre-state-mismatch" /\ UNCHANGED <<st, fresh, memo>>       \* the harness lost track: machinery error
+       THEN verdict' = "pre-state-mismatch" /\ UNCHANGED <<st, fresh, memo, rmemo>>       \* the harness lost track: machinery error
        ELSE IF e.a \in ReadOnly /\ e.post = e.pre
-       THEN UNCHANGED <<st, fresh, memo, verdict>>
+       THEN \* the state is unchanged; where the result of the call was observed (res # 0) it must be a function of the
+            \* visible state as well: the same call from the same state gives the same result, whatever happened before
+            IF e.res # 0 /\ \E m \in rmemo : m[1] = e.pre /\ m[2] = e.a /\ m[3] # e.res
+            THEN verdict' = "read-only-result-depends-on-history" /\ UNCHANGED <<st, fresh, memo, rmemo>>
+            ELSE /\ rmemo' = IF e.res # 0 THEN rmemo \cup {<<e.pre, e.a, e.res>>} ELSE rmemo
+                 /\ UNCHANGED <<st, fresh, memo, verdict>>
        ELSE IF e.a \in ReadOnly /\ fresh[e.inst]
-       THEN verdict' = "read-only-call-changed-state" /\ UNCHANGED <<st, fresh, memo>>
+       THEN verdict' = "read-only-call-changed-state" /\ UNCHANGED <<st, fresh, memo, rmemo>>
        ELSE \* a mutating call, or a derivative check on a model that has not been run in its current state: the
             \* documented behaviour is that the check runs the model first, i.e. it acts as RunModel
             LET act == IF e.a \in ReadOnly THEN "RunModel" ELSE e.a
                 known == {m \in memo : m[1] = e.pre /\ m[2] = act /\ m[3] = e.arg}
-            IN IF e.a \in ReadOnly /\ e.a \notin {"CheckPartials", "CheckTotals", "ComputeColoring"}
-               THEN verdict' = "read-only-call-changed-state" /\ UNCHANGED <<st, fresh, memo>>
+            IN IF e.a \in ReadOnly /\ e.a \notin ImplicitRun
+               THEN verdict' = "read-only-call-changed-state" /\ UNCHANGED <<st, fresh, memo, rmemo>>
                ELSE IF known # {} /\ \E m \in known : m[4] # e.post
-               THEN verdict' = "not-a-function-of-visible-state" /\ UNCHANGED <<st, fresh, memo>>
+               THEN verdict' = "not-a-function-of-visible-state" /\ UNCHANGED <<st, fresh, memo, rmemo>>
                ELSE /\ memo' = memo \cup {<<e.pre, act, e.arg, e.post>>}
                     /\ st' = [st EXCEPT ![e.inst] = e.post]
                     /\ fresh' = [fresh EXCEPT ![e.inst] = (act = "RunModel")]
-                    /\ UNCHANGED verdict
+                    /\ UNCHANGED <<verdict, rmemo>>
     /\ l' = l + 1
     /\ UNCHANGED tid
 
